@@ -476,6 +476,9 @@ class BasicVisitor(NodeVisitor):
 
     def visit_unop_exp(self, _, visited_children) -> AbstractBasicExpression:
         op, _, exp = visited_children
+        if isinstance(exp, BasicBinaryExp):
+            # the operand is a power: BASIC09 negates before it raises
+            exp = BasicParenExp(exp)
         return BasicOpExp(op.operator, exp)
 
     def visit_unop(self, _, visited_children):
